@@ -17,6 +17,17 @@
 //                 dumped state), pointer members agree in being null or not
 //   future      : where the class has behaviour, the same operation applied to
 //                 O and R1 leaves both with identical dumps.
+//   chain       : R1 is dumped and restored again (G2), G2 dumped and restored
+//                 (G3): an even and a further odd number of restarts. Every
+//                 generation must dump A and hold O's values (a defect that
+//                 cancels after two restarts is reported for generation 1 and
+//                 3, one that needs two restarts to appear for generation 2);
+//                 the future operation is applied to G2 as well.
+//
+// Alphabet rule for the states below: parameters that play different roles get
+// different values (per axis, per quantity), none of them the default of the
+// code; repeatable things (subgrids, sources, modes, updates, output counters)
+// appear 0, 1, 2 and >= 3 times.
 #include "verif_common.hpp"
 
 #include "AlveliusTurbulenceForcing.hpp"
@@ -48,6 +59,7 @@
 
 #include <cstddef>
 #include <functional>
+#include <memory>
 #include <new>
 
 using verif::fmt;
@@ -64,7 +76,7 @@ static void crash_handler(int sig) {
   siglongjmp(g_jb, 1);
 }
 static verif::Result *g_R;
-static uint64_t g_classes = 0;
+static uint64_t g_classes = 0, g_generations = 0;
 static std::set< std::string > g_class_names;
 
 // ---------------------------------------------------------------------------
@@ -202,25 +214,81 @@ void check_object(const std::string &cls, const std::string &state, const T &ori
                        cls.c_str(), state.c_str(), A.size(), B.size(), off),
                    replay);
   }
+  // restore chain: generation 2 from the dump of generation 1, generation 3
+  // from the dump of generation 2
+  const std::string fc = g_dir + "/c.dump", fd = g_dir + "/d.dump";
+  Holder< T > r3, r4;
+  {
+    Holder< T > *gen[2] = {&r3, &r4};
+    const std::string *from[2] = {&fb, &fc}, *to[2] = {&fc, &fd};
+    for (int gi = 0; gi < 2; ++gi) {
+      gen[gi]->restore(gi ? 0x54 : 0xAB, *from[gi]);
+      const char *pg = (const char *)gen[gi]->obj;
+      bool wild = false;
+      for (auto &f : fields) {
+        ++g_R->evaluations;
+        const char *po = (const char *)&orig + f.offset;
+        if (f.kind == VALUE && memcmp(pg + f.offset, po, f.size) != 0)
+          g_R->violation("C09:restored-state-differs:" + cls + "::" + f.name + tag + fmt(":generation-%d", gi + 2),
+                         fmt("%s (%s): member %s after %d dump/restore cycles is %s, of the original %s", cls.c_str(),
+                             state.c_str(), f.name, gi + 2, hexbytes(pg + f.offset, f.size).c_str(),
+                             hexbytes(po, f.size).c_str()),
+                         replay);
+        if (f.kind == POINTER) {
+          bool fill = true;
+          for (size_t i = 0; i < f.size; ++i)
+            fill = fill && (unsigned char)pg[f.offset + i] == (gi ? 0x54 : 0xAB);
+          wild = wild || fill;
+        }
+      }
+      if (wild) { // already reported for generation 1
+        gen[gi]->obj = nullptr;
+        if (gi == 0)
+          r4.obj = nullptr;
+        break;
+      }
+      const std::string C = dump_of(*gen[gi]->obj, *to[gi]);
+      ++g_R->evaluations;
+      ++g_generations;
+      if (C != A) {
+        size_t off = 0;
+        while (off < std::min(A.size(), C.size()) && A[off] == C[off])
+          ++off;
+        g_R->violation("C09:component-redump-differs:" + cls + tag + fmt(":generation-%d", gi + 2),
+                       fmt("%s (%s): the dump after %d dump/restore cycles differs from the first dump (sizes %zu/%zu, "
+                           "first difference at offset %zu)",
+                           cls.c_str(), state.c_str(), gi + 2, A.size(), C.size(), off),
+                       replay);
+      }
+    }
+  }
   if (future && orig_mutable) {
     ++g_R->evaluations;
     future(*orig_mutable, "orig");
     future(*r1.obj, "restored");
     const std::string A2 = dump_of(*orig_mutable, fa);
     const std::string B2 = dump_of(*r1.obj, fb);
-    if (A2 != B2) {
+    auto differ = [&](const std::string &X, const char *which, const std::string &ktag) {
+      if (A2 == X)
+        return;
       size_t off = 0, cnt = 0;
-      for (size_t i = 0; i < std::min(A2.size(), B2.size()); ++i)
-        if (A2[i] != B2[i]) {
+      for (size_t i = 0; i < std::min(A2.size(), X.size()); ++i)
+        if (A2[i] != X[i]) {
           if (!cnt)
             off = i;
           ++cnt;
         }
-      g_R->violation("C09:restored-object-behaves-differently:" + cls + tag,
-                     fmt("%s (%s): after the same operation the original and the restored object dump different "
+      g_R->violation("C09:restored-object-behaves-differently:" + cls + tag + ktag,
+                     fmt("%s (%s): after the same operation the original and the %s object dump different "
                          "bytes (%zu differ, first at %zu of %zu)",
-                         cls.c_str(), state.c_str(), cnt, off, A2.size()),
+                         cls.c_str(), state.c_str(), which, cnt, off, A2.size()),
                      replay);
+    };
+    differ(B2, "restored", "");
+    if (r3.obj) {
+      ++g_R->evaluations;
+      future(*r3.obj, "restored-twice");
+      differ(dump_of(*r3.obj, fc), "twice restored", ":generation-2");
     }
   }
 }
@@ -255,7 +323,7 @@ static void fill_hydro(HydroVariables &v, int seed) {
 /// the evolving source lists append to a log file in the working directory;
 /// the original and the restored object must each continue from the file as it
 /// was when the dump was written
-static std::string g_log_after[2];
+static std::string g_log_after[3]; // orig, restored, restored-twice
 template < class S > std::function< void(S &, const std::string &) >
 with_source_log(const std::string &fname, std::function< void(S &) > op) {
   return [fname, op](S &x, const std::string &who) {
@@ -272,19 +340,22 @@ with_source_log(const std::string &fname, std::function< void(S &) > op) {
       fclose(f);
     }
     op(x);
-    g_log_after[who == "orig" ? 0 : 1] = verif::read_file(fname);
+    g_log_after[who == "orig" ? 0 : (who == "restored" ? 1 : 2)] = verif::read_file(fname);
   };
 }
 static void compare_source_logs(const std::string &cls, const std::string &state, bool output) {
   if (!output)
     return;
-  ++g_R->evaluations;
-  if (g_log_after[0] != g_log_after[1])
-    g_R->violation("C09:restored-object-behaves-differently:" + cls + ":source-log",
-                   fmt("%s (%s): the source log file continued by the restored object (%zu bytes) differs from "
-                       "the one continued by the original (%zu bytes)",
-                       cls.c_str(), state.c_str(), g_log_after[1].size(), g_log_after[0].size()),
-                   fmt("{\"class\": \"%s\"}", cls.c_str()));
+  for (int g = 1; g <= 2; ++g) {
+    ++g_R->evaluations;
+    if (g_log_after[0] != g_log_after[g])
+      g_R->violation("C09:restored-object-behaves-differently:" + cls + ":source-log" + (g == 2 ? ":generation-2" : ""),
+                     fmt("%s (%s): the source log file continued by the %s object (%zu bytes) differs from "
+                         "the one continued by the original (%zu bytes)",
+                         cls.c_str(), state.c_str(), g == 1 ? "restored" : "twice restored", g_log_after[g].size(),
+                         g_log_after[0].size()),
+                     fmt("{\"class\": \"%s\"}", cls.c_str()));
+  }
 }
 
 struct BoxSpec {
@@ -500,7 +571,11 @@ int main(int argc, char **argv) {
       double s[3];
       int n[3];
     };
-    std::vector< Cand > cand = {{{1., 1., 2.}, {10, 10, 12}}, {{0.5, 0.5, 2.}, {5, 5, 12}}};
+    // first: boxes on which the three sides, the three cell counts and the
+    // three cell sizes are all different (always taken, see `forced`)
+    std::vector< Cand > cand = {{{0.7, 0.9, 1.1}, {3, 4, 5}}, {{1.3, 0.7, 0.9}, {5, 2, 3}},
+                                {{1., 1., 2.}, {10, 10, 12}}, {{0.5, 0.5, 2.}, {5, 5, 12}}};
+    const size_t forced = 2;
     const double sv[] = {0.7, 0.9, 1.1, 1.3, 1.7, 3.};
     for (double x : sv)
       for (double y : sv)
@@ -509,15 +584,24 @@ int main(int argc, char **argv) {
             for (int n : {3, 6})
               cand.push_back({{x, y, z}, {n, n, n}});
     unsigned covered = 0, nsel = 0, nagree = 0;
-    for (auto &c : cand) {
+    unsigned nforced = 0;
+    for (size_t ic = 0; ic < cand.size(); ++ic) {
+      auto &c = cand[ic];
       const double dx = c.s[0] / c.n[0], dy = c.s[1] / c.n[1], dz = c.s[2] / c.n[2];
       const double v1 = (dx * dy) * dz, v2 = dx * (dy * dz), v3 = (dx * dz) * dy;
       const unsigned pairs = (v1 != v2 ? 1u : 0u) | (v1 != v3 ? 2u : 0u) | (v2 != v3 ? 4u : 0u);
       bool take = false;
-      if (pairs == 0 && nagree < 1) {
+      if (ic < forced) {
+        take = true;
+        ++nforced;
+        if (pairs) {
+          ++nsel;
+          covered |= pairs;
+        }
+      } else if (pairs == 0 && nagree < 1) {
         take = true; // one anisotropic box on which all orders agree
         ++nagree;
-      } else if (pairs && (nsel < 2 || (pairs & ~covered)) && nsel < 5) {
+      } else if (pairs && (nsel < 2 || (pairs & ~covered)) && nsel < 5 + forced) {
         take = true;
         ++nsel;
         covered |= pairs;
@@ -538,6 +622,7 @@ int main(int argc, char **argv) {
       specs.push_back(sp);
     }
     R.set("subgrid_boxes_non_associative_cell_products", nsel);
+    R.set("subgrid_boxes_with_all_sides_cell_counts_and_cell_sizes_different", nforced);
     R.set("subgrid_product_order_pairs_covered_bitmask", covered);
     if (nsel < 2)
       R.violation("C09:geometry-alphabet-incomplete",
@@ -556,6 +641,7 @@ int main(int argc, char **argv) {
           g._ngbs[i] = (i * 7) % 5;
           g._active_buffers[i] = NEIGHBOUR_OUTSIDE;
         }
+        g._owning_thread = 3; // not the 0 of the constructor
         for (int i = 0; i < ntot; ++i)
           fill_ionization(g._ionization_variables[i], i % 5);
         check_object< DensitySubGrid >("DensitySubGrid", state, g, dsg_fields, nullptr, nullptr, tag);
@@ -566,6 +652,7 @@ int main(int argc, char **argv) {
           g._ngbs[i] = (i * 7) % 5;
           g._active_buffers[i] = NEIGHBOUR_OUTSIDE;
         }
+        g._owning_thread = 5;
         // a smooth, non-uniform gas state
         int idx = 0;
         for (auto it = g.hydro_begin(); it != g.hydro_end(); ++it, ++idx) {
@@ -575,6 +662,12 @@ int main(int argc, char **argv) {
           iv.set_ionic_fraction(ION_H_n, 1.e-6);
           it.get_hydro_variables().set_primitives_velocity(
               CoordinateVector<>(1.e3 * std::sin(0.5 * idx), -5.e2 * std::cos(0.3 * idx), 2.e2));
+          // fields a pure hydro step of an isolated subgrid does not touch but
+          // the dump has to carry (external gravity, stellar feedback, cooling)
+          it.get_hydro_variables().set_gravitational_acceleration(
+              CoordinateVector<>(1.e-9 * (1 + idx % 7), -2.e-10 * (1 + idx % 5), 3.e-11 * (1 + idx % 3)));
+          it.get_hydro_variables()._energy_rate_term = 4.e-20 * (1 + idx % 4);
+          it.get_hydro_variables()._energy_term = -7.e-25 * (1 + idx % 6);
         }
         g.initialize_hydrodynamic_variables(hydro, true);
         check_object< HydroDensitySubGrid >(
@@ -595,29 +688,69 @@ int main(int argc, char **argv) {
     }
   }
 
-  // --- the subgrid creator (whole grid) on all three layouts
+  // --- the subgrid creator (whole grid): 1, 2 and 3 subgrids per axis, cubic
+  // boxes with 6^3 cells on the first three layouts; an anisotropic box with
+  // different cell and subgrid counts on every axis and each axis periodic in
+  // turn; without and with subgrid copies (levels 0, 1, 2 -> 0, 1, 3 copies)
   if (WANT("DensitySubGridCreator")) {
+    typedef DensitySubGridCreator< HydroDensitySubGrid > GC;
+    struct CreatorSpec {
+      double side[3];
+      int ncell[3], nsub[3], periodic_axis;
+      std::vector< uint_fast8_t > levels; // empty: no copies
+      std::string name;
+    };
+    std::vector< CreatorSpec > cs;
     for (auto &sd : sides)
-      for (int lay = 0; lay < 3; ++lay) {
-        const int nsub[3] = {lay >= 1 ? 2 : 1, lay >= 2 ? 2 : 1, 1};
-        bool differs = false;
-        for (int i = 0; i < 3; ++i)
-          differs = differs || inverse_differs(sd.second / nsub[i], 6 / nsub[i]);
-        Box<> box(CoordinateVector<>(-0.5 * sd.second), CoordinateVector<>(sd.second));
-        DensitySubGridCreator< HydroDensitySubGrid > gc(box, CoordinateVector< int_fast32_t >(6),
-                                                         CoordinateVector< int_fast32_t >(nsub[0], nsub[1], nsub[2]),
-                                                         CoordinateVector< bool >(lay == 1, false, false));
-        HomogeneousDensityFunction df(1.e8, 8000.);
-        gc.initialize(df);
-        for (auto it = gc.begin(); it != gc.original_end(); ++it)
-          (*it).initialize_hydrodynamic_variables(hydro, true);
-        typedef DensitySubGridCreator< HydroDensitySubGrid > GC;
-        check_object< GC >("DensitySubGridCreator", fmt("side %s layout %dx%dx%d", sd.first.c_str(), nsub[0], nsub[1], nsub[2]),
-                           gc,
-                           {FV(GC, _box), FV(GC, _subgrid_sides), FV(GC, _number_of_subgrids),
-                            FV(GC, _subgrid_number_of_cells), FV(GC, _periodicity)},
-                           nullptr, nullptr, differs ? "non-dyadic-cell-size" : "");
+      for (int lay = 0; lay < 3; ++lay)
+        cs.push_back({{sd.second, sd.second, sd.second},
+                      {6, 6, 6},
+                      {lay >= 1 ? 2 : 1, lay >= 2 ? 2 : 1, 1},
+                      lay == 1 ? 0 : -1,
+                      {},
+                      "side " + sd.first});
+    for (auto &sd : sides) {
+      // subgrid index = (ix * ny + iy) * nz + iz; neighbouring levels differ by at most 1
+      cs.push_back({{sd.second, 0.8 * sd.second, 1.3 * sd.second}, {6, 4, 9}, {1, 2, 3}, 1, {}, "sides (1, 0.8, 1.3) x " + sd.first});
+      cs.push_back({{sd.second, 0.8 * sd.second, 1.3 * sd.second}, {6, 4, 9}, {1, 2, 3}, 2, {}, "sides (1, 0.8, 1.3) x " + sd.first});
+      cs.push_back({{sd.second, 0.8 * sd.second, 1.3 * sd.second}, {6, 4, 9}, {1, 2, 3}, 1, {2, 1, 0, 1, 1, 0},
+                    "sides (1, 0.8, 1.3) x " + sd.first});
+      cs.push_back({{1.3 * sd.second, sd.second, 0.8 * sd.second}, {9, 6, 4}, {3, 1, 2}, 0, {1, 0, 0, 0, 0, 0},
+                    "sides (1.3, 1, 0.8) x " + sd.first});
+    }
+    uint64_t ncopies_states[3] = {0, 0, 0}; // creators with 0, 1, >= 2 copies
+    for (auto &c : cs) {
+      bool differs = false;
+      for (int i = 0; i < 3; ++i)
+        differs = differs || inverse_differs(c.side[i] / c.nsub[i], c.ncell[i] / c.nsub[i]);
+      Box<> box(CoordinateVector<>(-0.5 * c.side[0], 0.25 * c.side[1], 0.1 * c.side[2]),
+                CoordinateVector<>(c.side[0], c.side[1], c.side[2]));
+      GC gc(box, CoordinateVector< int_fast32_t >(c.ncell[0], c.ncell[1], c.ncell[2]),
+            CoordinateVector< int_fast32_t >(c.nsub[0], c.nsub[1], c.nsub[2]),
+            CoordinateVector< bool >(c.periodic_axis == 0, c.periodic_axis == 1, c.periodic_axis == 2));
+      HomogeneousDensityFunction df(1.e8, 8000.);
+      gc.initialize(df);
+      for (auto it = gc.begin(); it != gc.original_end(); ++it)
+        (*it).initialize_hydrodynamic_variables(hydro, true);
+      size_t ncopy = 0;
+      if (!c.levels.empty()) {
+        std::vector< uint_fast8_t > lv = c.levels;
+        gc.create_copies(lv);
+        ncopy = gc._originals.size();
       }
+      ++ncopies_states[ncopy == 0 ? 0 : (ncopy == 1 ? 1 : 2)];
+      check_object< GC >("DensitySubGridCreator",
+                         fmt("%s, %dx%dx%d cells, layout %dx%dx%d, periodic axis %d, %zu subgrid copies", c.name.c_str(),
+                             c.ncell[0], c.ncell[1], c.ncell[2], c.nsub[0], c.nsub[1], c.nsub[2], c.periodic_axis,
+                             ncopy),
+                         gc,
+                         {FV(GC, _box), FV(GC, _subgrid_sides), FV(GC, _number_of_subgrids),
+                          FV(GC, _subgrid_number_of_cells), FV(GC, _periodicity)},
+                         nullptr, nullptr, differs ? "non-dyadic-cell-size" : "");
+    }
+    R.set("creator_states_without_copies", (double)ncopies_states[0]);
+    R.set("creator_states_with_one_copy", (double)ncopies_states[1]);
+    R.set("creator_states_with_two_or_more_copies", (double)ncopies_states[2]);
   }
 
   // --- parameter dictionaries
@@ -643,77 +776,155 @@ int main(int argc, char **argv) {
     }
   }
 
-  // --- turbulence forcing
+  // --- turbulence forcing: the three layouts of the runs on 6^3 cells, and a
+  // grid with 1, 2, 3 subgrids of 7, 5, 4 cells (all six numbers different) with
+  // wave number windows that hold 0, 3, 7 and 16 modes (the maximum wave number
+  // is an integer: the mode table steps from -kmax in units of 1); generator forwarded
+  // to a non-zero starting time; 0, 1, 2 updates before the dump
   if (WANT("AlveliusTurbulenceForcing")) {
     typedef AlveliusTurbulenceForcing ATF;
     const std::vector< Field > f = {FV(ATF, _number_of_subgrids), FV(ATF, _number_of_cells), FV(ATF, _time_step),
                                     FV(ATF, _number_of_driving_steps)};
-    for (int lay = 0; lay < 3; ++lay)
+    struct TurbSpec {
+      int nsub[3], ncell[3];
+      double kmin, kmax, kpeak, conc, start;
+    };
+    std::vector< TurbSpec > ts;
+    for (int lay = 0; lay < 3; ++lay) {
+      const int nsub[3] = {lay >= 1 ? 2 : 1, lay >= 2 ? 2 : 1, 1};
+      ts.push_back({{nsub[0], nsub[1], nsub[2]}, {6 / nsub[0], 6 / nsub[1], 6 / nsub[2]}, 0.9, 2., 1.6, 0.3, 0.});
+    }
+    ts.push_back({{1, 2, 3}, {7, 5, 4}, 1.2, 1., 1.1, 0.3, 1.7});   // empty window: no mode
+    ts.push_back({{1, 2, 3}, {7, 5, 4}, 0.9, 1., 0.95, 0.25, 1.7}); // |k| = 1: 3 modes
+    ts.push_back({{1, 2, 3}, {7, 5, 4}, 1.5, 2., 1.7, 0.35, 0.});   // |k| = sqrt(3), 2: 7 modes
+    ts.push_back({{3, 1, 2}, {4, 7, 5}, 0.9, 2., 1.6, 0.3, 1.7});   // 16 modes
+    std::set< size_t > mode_counts;
+    for (auto &t0 : ts)
       for (int nupd = 0; nupd < 3; ++nupd) {
-        const int nsub[3] = {lay >= 1 ? 2 : 1, lay >= 2 ? 2 : 1, 1};
         Box<> box(CoordinateVector<>(-1.), CoordinateVector<>(2.));
-        ATF t(CoordinateVector< int_fast32_t >(nsub[0], nsub[1], nsub[2]),
-              CoordinateVector< int_fast32_t >(6 / nsub[0], 6 / nsub[1], 6 / nsub[2]), box, 1., 2., 1.5, 0.2, 2.7e-4,
-              17, 0.5, 0.);
+        ATF t(CoordinateVector< int_fast32_t >(t0.nsub[0], t0.nsub[1], t0.nsub[2]),
+              CoordinateVector< int_fast32_t >(t0.ncell[0], t0.ncell[1], t0.ncell[2]), box, t0.kmin, t0.kmax, t0.kpeak,
+              t0.conc, 2.7e-4, 17, 0.5, t0.start);
+        mode_counts.insert(t._kforce.size());
         for (int i = 0; i < nupd; ++i)
           t.update_turbulence(1.3 * (i + 1));
         check_object< ATF >(
-            "AlveliusTurbulenceForcing", fmt("layout %dx%dx%d after %d updates", nsub[0], nsub[1], nsub[2], nupd), t,
-            f, [&](ATF &x, const std::string &) { x.update_turbulence(1.3 * (nupd + 1) + 2.1); }, &t);
+            "AlveliusTurbulenceForcing",
+            fmt("layout %dx%dx%d of %dx%dx%d cells, %zu modes, start %g, after %d updates", t0.nsub[0], t0.nsub[1],
+                t0.nsub[2], t0.ncell[0], t0.ncell[1], t0.ncell[2], t._kforce.size(), t0.start, nupd),
+            t, f, [&](ATF &x, const std::string &) { x.update_turbulence(1.3 * (nupd + 1) + 2.1); }, &t);
       }
+    std::string mc;
+    for (size_t m : mode_counts)
+      mc += fmt("%s%zu", mc.empty() ? "" : ", ", m);
+    R.set_str("turbulence_mode_counts", mc);
   }
 
-  // --- mask
+  // --- mask. Parameters all different and none the default (scale factors
+  // 0.01 / 1 / 0.01, delta t 5000 yr); 0, 1, 2, 3 subgrids registered with the
+  // mask, of which the sphere covers cells in 0 to 3; gas at rest / moving
+  // inside the mask; mass accretion output counter 0 (the only value the task
+  // based simulation produces) and 1, 2, 3 (RadiationHydrodynamicsSimulation
+  // with delta t > 0: apply_mask(DensityGrid &) increments it, first at t = 0)
   if (WANT("RescaledICHydroMask")) {
     typedef RescaledICHydroMask M;
     const std::vector< Field > f = {FV(M, _center),       FV(M, _radius2),       FV(M, _scale_factors),
                                     FV(M, _delta_t),      FV(M, _snap_n),        FV(M, _mask_density),
                                     FV(M, _mask_velocity), FV(M, _mask_pressure)};
-    for (int moving = 0; moving < 2; ++moving) {
-      const double box[6] = {0., 0., 0., 1., 1., 1.};
-      HydroDensitySubGrid g(box, CoordinateVector< int_fast32_t >(6));
-      int idx = 0;
-      for (auto it = g.hydro_begin(); it != g.hydro_end(); ++it, ++idx) {
-        IonizationVariables &iv = it.get_ionization_variables();
-        iv.set_number_density(1.e8 * (1. + 0.3 * std::sin(0.9 * idx)));
-        iv.set_temperature(8000.);
-        iv.set_ionic_fraction(ION_H_n, 1.e-6);
-        if (moving)
-          it.get_hydro_variables().set_primitives_velocity(
-              CoordinateVector<>(1.e3 * (1. + std::sin(0.5 * idx)), -5.e2, 2.e2));
-      }
-      g.initialize_hydrodynamic_variables(hydro, true);
-      M m(CoordinateVector<>(0.55), 0.3, 0.5, 0.8, 0.5, 0.);
-      m.initialize_mask(0, g);
-      // the future of a mask = what it does to a subgrid
-      HydroDensitySubGrid g1(g), g2(g);
-      for (int i = 0; i < TRAVELDIRECTION_NUMBER; ++i) // not set by the constructors
-        g1._ngbs[i] = g2._ngbs[i] = NEIGHBOUR_OUTSIDE;
-      std::string after_orig, after_restored;
-      check_object< M >(
-          "RescaledICHydroMask", moving ? "gas moving inside the mask" : "gas at rest", m, f,
-          [&](M &x, const std::string &who) {
-            HydroDensitySubGrid &t = (who == "orig") ? g1 : g2;
-            x.apply_mask(0, t, 1.e-6, 1.e-6);
-            (who == "orig" ? after_orig : after_restored) = dump_of(t, g_dir + "/sg.dump");
-          },
-          &m);
-      ++R.evaluations;
-      size_t ndiff = 0, first = 0;
-      for (size_t i = 0; i < std::min(after_orig.size(), after_restored.size()); ++i)
-        if (after_orig[i] != after_restored[i]) {
-          if (!ndiff)
-            first = i;
-          ++ndiff;
+    const double SF_DENSITY = 0.3, SF_VELOCITY = 0.8, SF_PRESSURE = 0.6, DELTA_T = 2.5e-7;
+    uint64_t nstates = 0;
+    std::set< size_t > cells_in_mask, subgrids_registered;
+    for (int nreg = 0; nreg <= 3; ++nreg)
+      for (int moving = 0; moving < 2; ++moving)
+        for (int snap = 0; snap <= 3; ++snap) {
+          if (snap > 0 && !(nreg == 2 && moving == 1) && !(nreg == 3 && snap == 3))
+            continue; // the counter is crossed with one state of the rest (+ one more)
+          // three subgrids side by side along x, 4 x 5 x 6 cells each
+          std::vector< std::unique_ptr< HydroDensitySubGrid > > grids;
+          for (int ig = 0; ig < 3; ++ig) {
+            const double box[6] = {0.8 * ig, 0., 0., 0.8, 1., 1.2};
+            grids.emplace_back(new HydroDensitySubGrid(box, CoordinateVector< int_fast32_t >(4, 5, 6)));
+            HydroDensitySubGrid &g = *grids.back();
+            int idx = 100 * ig;
+            for (auto it = g.hydro_begin(); it != g.hydro_end(); ++it, ++idx) {
+              IonizationVariables &iv = it.get_ionization_variables();
+              iv.set_number_density(1.e8 * (1. + 0.3 * std::sin(0.9 * idx)));
+              iv.set_temperature(8000. + 300. * std::cos(0.7 * idx));
+              iv.set_ionic_fraction(ION_H_n, 1.e-6);
+              if (moving)
+                it.get_hydro_variables().set_primitives_velocity(
+                    CoordinateVector<>(1.e3 * (1. + std::sin(0.5 * idx)), -5.e2, 2.e2 * std::cos(0.2 * idx)));
+            }
+            g.initialize_hydrodynamic_variables(hydro, true);
+            for (int i = 0; i < TRAVELDIRECTION_NUMBER; ++i) // not set by the constructors
+              g._ngbs[i] = NEIGHBOUR_OUTSIDE;
+          }
+          // sphere centred in the middle subgrid, reaching into both others for
+          // nreg = 3; the subgrids are registered in the order 1, 0, 2 with
+          // indices 7, 3, 11, so that offsets and keys are not 0, 1, 2
+          const int order[3] = {1, 0, 2};
+          const uint_fast32_t index[3] = {7, 3, 11};
+          M m(CoordinateVector<>(1.21, 0.45, 0.65), nreg == 1 ? 0.05 : 0.52, SF_DENSITY, SF_VELOCITY, SF_PRESSURE,
+              DELTA_T);
+          for (int i = 0; i < nreg; ++i)
+            m.initialize_mask(index[order[i]], *grids[order[i]]);
+          m._snap_n = snap;
+          cells_in_mask.insert(m._mask_velocities.size());
+          subgrids_registered.insert(m._subgrid_offsets.size());
+          ++nstates;
+          // the future of a mask = what it does to the subgrids it knows
+          std::map< std::string, std::vector< std::unique_ptr< HydroDensitySubGrid > > > copies;
+          for (const char *who : {"orig", "restored", "restored-twice"})
+            for (int ig = 0; ig < 3; ++ig)
+              copies[who].emplace_back(new HydroDensitySubGrid(*grids[ig]));
+          std::map< std::string, std::string > after;
+          const std::string state =
+              fmt("%d subgrids registered, %zu cells in the mask, gas %s, output counter %d", nreg,
+                  m._mask_velocities.size(), moving ? "moving" : "at rest", snap);
+          check_object< M >(
+              "RescaledICHydroMask", state, m, f,
+              [&](M &x, const std::string &who) {
+                for (int i = 0; i < nreg; ++i) {
+                  HydroDensitySubGrid &t = *copies[who][order[i]];
+                  for (int j = 0; j < TRAVELDIRECTION_NUMBER; ++j)
+                    t._ngbs[j] = NEIGHBOUR_OUTSIDE;
+                  x.apply_mask(index[order[i]], t, 1.e-6, 1.e-6);
+                  after[who] += dump_of(t, g_dir + "/sg.dump");
+                }
+              },
+              &m, snap ? "mass-output-counter-nonzero" : "");
+          for (const char *who : {"restored", "restored-twice"}) {
+            ++R.evaluations;
+            const std::string &ao = after["orig"], &ar = after[who];
+            if (ao == ar)
+              continue;
+            size_t ndiff = 0, first = 0;
+            for (size_t i = 0; i < std::min(ao.size(), ar.size()); ++i)
+              if (ao[i] != ar[i]) {
+                if (!ndiff)
+                  first = i;
+                ++ndiff;
+              }
+            R.violation(std::string("C09:restored-object-behaves-differently:RescaledICHydroMask") +
+                            (std::string(who) == "restored" ? "" : ":generation-2"),
+                        fmt("RescaledICHydroMask (%s): apply_mask of the %s mask leaves the subgrids in a different "
+                            "state than apply_mask of the original mask (%zu bytes of the subgrid dumps differ, first "
+                            "at %zu of %zu)",
+                            state.c_str(), who, ndiff, first, ao.size()),
+                        fmt("{\"class\": \"RescaledICHydroMask\", \"state\": \"%s\"}", state.c_str()));
+          }
         }
-      if (after_orig != after_restored)
-        R.violation("C09:restored-object-behaves-differently:RescaledICHydroMask",
-                    fmt("RescaledICHydroMask (%s): apply_mask of the restored mask leaves the subgrid in a different "
-                        "state than apply_mask of the original mask (%zu bytes of the subgrid dump differ, first at "
-                        "%zu of %zu)",
-                        moving ? "gas moving inside the mask" : "gas at rest", ndiff, first, after_orig.size()),
-                    "{\"class\": \"RescaledICHydroMask\"}");
-    }
+    R.set("mask_states", (double)nstates);
+    std::string l1, l2;
+    for (size_t v : cells_in_mask)
+      l1 += fmt("%s%zu", l1.empty() ? "" : ", ", v);
+    for (size_t v : subgrids_registered)
+      l2 += fmt("%s%zu", l2.empty() ? "" : ", ", v);
+    R.set_str("mask_cells_in_mask", l1);
+    R.set_str("mask_subgrids_registered", l2);
+    R.set_str("mask_parameters", fmt("scale factors density %g / velocity %g / pressure %g, delta t %g s, centre (1.21, "
+                                     "0.45, 0.65), output counter 0..3",
+                                     SF_DENSITY, SF_VELOCITY, SF_PRESSURE, DELTA_T));
   }
 
   // --- source distributions
@@ -739,13 +950,14 @@ int main(int argc, char **argv) {
                                     FV(S, _box),              FV(S, _update_interval),   FV(S, _number_of_updates),
                                     FP(S, _output_file)};
     for (int output = 0; output < 2; ++output)
+      for (int nsrc : {0, 1, 2, 5})
       for (int nupd = 0; nupd < 3; ++nupd) {
-        S s(10., 1.e48, 5, CoordinateVector<>(-1.), CoordinateVector<>(2.), 77, 1.5, 4., output);
+        S s(10., 1.e48, nsrc, CoordinateVector<>(-1., -0.7, -1.2), CoordinateVector<>(2., 1.4, 2.6), 77, 1.5, 4., output);
         for (int i = 0; i < nupd; ++i)
           s.update(4. + 1.6 * (i + 1));
         check_object< S >(
             "UniformRandomPhotonSourceDistribution",
-            fmt("%s source file, %d updates", output ? "with" : "no", nupd), s, f,
+            fmt("%s source file, %d sources, %d updates", output ? "with" : "no", nsrc, nupd), s, f,
             with_source_log< S >("UniformRandom_source_positions.txt", [&](S &x) { x.update(4. + 1.6 * (nupd + 1) + 7.); }), &s);
         compare_source_logs("UniformRandomPhotonSourceDistribution", fmt("%d updates", nupd), output);
       }
@@ -758,7 +970,7 @@ int main(int argc, char **argv) {
                                     FV(S, _update_interval), FV(S, _number_of_updates), FP(S, _output_file)};
     for (int output = 0; output < 2; ++output)
       for (int nupd = 0; nupd < 3; ++nupd) {
-        S s(10., 1.e48, 6, -1., 2., -1., 2., 0., 0.3, 91, 1.5, 4., output);
+        S s(10., 1.e48, 6, -1., 2., -0.7, 1.4, 0.1, 0.3, 91, 1.5, 4., output);
         for (int i = 0; i < nupd; ++i)
           s.update(4. + 1.6 * (i + 1));
         check_object< S >(
@@ -776,7 +988,9 @@ int main(int argc, char **argv) {
     const double Msol = 1.98855e30;
     for (int output = 0; output < 2; ++output)
       for (int nupd = 0; nupd < 2; ++nupd) {
-        S s(1., 1., 8. * Msol, 15. * Msol, 120. * Msol, -2.3, 42, 3.e13, 0., 1., output);
+        // number function norm, UV luminosity norm, boost factor, IMF slope, seed: all
+        // different and none the default (1, 1, 1, -2.3, 42)
+        S s(1.3, 0.7, 8.5 * Msol, 15. * Msol, 120. * Msol, -2.2, 43, 3.e13, 0., 1.9, output);
         for (int i = 0; i < nupd; ++i)
           s.update(3.1e13 * (i + 1));
         check_object< S >(
@@ -819,6 +1033,7 @@ int main(int argc, char **argv) {
   R.rule = "evaluation = one oracle decision (re-dump equality, one member of one restored object, one future "
            "comparison); distinct non-trivial case = one (class, dumped byte image) pair with a non-empty image";
   R.set("classes", (double)g_classes);
+  R.set("restore_chain_dumps_generation_2_and_3", (double)g_generations);
   std::string cl;
   for (auto &c : g_class_names)
     cl += (cl.empty() ? "" : ", ") + c;
